@@ -74,6 +74,15 @@ def run (line : String) : String :=
         match res with
         | .error k => "err " ++ errName k
         | .ok r => resultOut kc.cfg.nV r
+      | "yen" =>
+        let runV := fun (s : Nat) (t : Option Nat) =>
+          yensVertex kc.cfg sim kc.term kc.kDefault kc.queryK s t (kc.q.sched :: kc.scheds)
+        let res := if kc.q.edgeOriented then runEdgeWithOutcome kc.cfg runV kc.q.source kc.q.target
+                   else runV kc.q.source kc.q.target
+        match res with
+        | .err k => "err " ++ errName k
+        | .ok r => resultOut kc.cfg.nV r
+        | .diverges _ => "diverges"
       | _ => "bad-alg"
 
 end Compass.Drv.C13
